@@ -427,3 +427,11 @@ package log
 //@   ensures[C12,C20:fanout-all] dlv == fanoutAll(c, len(c.AppenderRefs), sref(b), len(b), content(b), old(dlv))
 //@   loop 1 invariant[C12:range] 0 <= $k && $k <= len(c.AppenderRefs)
 //@   loop 1 invariant[C12:prefix] dlv == fanoutAll(c, $k, sref(b), len(b), content(b), old(dlv))
+
+// Alternative contract of AppenderRef.Append: callers filter by the reference's range (sendToAppenders
+// does), so the method itself need not repeat the check.
+//@ func (*AppenderRef).Append@B
+//@   requires c != nil && c.Appender != nil && e != nil
+//@   requires enable(c.Level, e.Level)
+//@   modifies dlv
+//@   ensures[C01:ref-forward] dlv == tsnoc(old(dlv), 1, ifval(c.Appender), e, e.Level.code, "")
